@@ -56,7 +56,7 @@ VcfMustRaise(ts, a, groups) ==
   \/ (a.allow_position_zero = 0 /\ \E s \in 1..Len(ts.sites) : a.site_mask[s] = 0 /\ pos[s] = 0)
   \/ \E s \in 1..Len(ts.sites) : a.site_mask[s] = 0 /\ Cardinality(SiteAlleles(ts, s - 1)) > 9
   \* individuals made of non-sample nodes cannot be decoded with isolated_as_missing (documented library error)
-  \/ (a.iam = 1 /\ Len(ts.sites) > 0 /\ \E g \in 1..Len(groups.g) : \E j \in 1..Len(groups.g[g]) : ~IsSample(ts, groups.g[g][j]))
+  \/ (a.iam = 1 /\ \E g \in 1..Len(groups.g) : \E j \in 1..Len(groups.g[g]) : ~IsSample(ts, groups.g[g][j]))
 VcfContigLength(ts, a) ==
   LET pos == TransformAll(a.transform, a.pos2)
       tl == TransformAll(a.transform, <<ts.L2>>)[1]
